@@ -133,7 +133,7 @@ class MPRNLRI(Attribute, Family):
         if nexthop_bytes is None:
             nexthop = IP.NoNextHop
         else:
-            nexthop_attr = NextHop.unpack_attribute(nexthop_bytes, Negotiated.UNSET)
+            nexthop_attr = NextHop.from_packet(nexthop_bytes) if nexthop_bytes else NextHop.UNSET
             if nexthop_attr is NextHop.UNSET:
                 nexthop = IP.NoNextHop
             elif isinstance(nexthop_attr, NextHop):
